@@ -322,6 +322,10 @@ func (s *Stream) close() error {
 			}
 			return s.session.wakeUpPeer()
 		}
+	} else {
+		// the state moved between the load and the compare-and-swap (the peer's close was handled meanwhile):
+		// close the stream from its new state, otherwise this Close would be lost.
+		return s.close()
 	}
 	return nil
 }
